@@ -54,6 +54,12 @@ func LoadProgram(repo string, patterns []string, overlay map[string][]byte) (*Pr
 		return nil, fmt.Errorf("load errors:\n%s", strings.Join(errs, "\n"))
 	}
 	prog, spkgs := ssautil.AllPackages(pkgs, ssa.InstantiateGenerics)
+	// source-level names (needed by loop invariants) only for the repository's own packages
+	for _, sp := range prog.AllPackages() {
+		if strings.HasPrefix(sp.Pkg.Path(), cadenceMod) {
+			sp.SetDebugMode(true)
+		}
+	}
 	prog.Build()
 	p := &Program{Repo: repo, Pkgs: pkgs, Prog: prog, SSAPkgs: spkgs, Funcs: map[string]*ssa.Function{},
 		typeTags: map[string]int{}, tagTypes: map[int]types.Type{}, implCache: map[string][]types.Type{},
